@@ -67,14 +67,15 @@ enum FaultKind
   FK_IT_EQ             = 9,
   FK_IT_ARITH          = 10,
   FK_GEN               = 11,
-  FK_NKINDS            = 12
+  FK_ELEM_SWAP         = 12,
+  FK_NKINDS            = 13
 };
 
 inline const char *fault_kind_name (int k)
 {
   static const char *names[] = { "elem_default_ctor", "elem_value_ctor", "elem_copy_ctor",
     "elem_move_ctor", "elem_copy_assign", "elem_move_assign", "allocate", "it_deref", "it_inc",
-    "it_eq", "it_arith", "generator" };
+    "it_eq", "it_arith", "generator", "elem_swap" };
   return (0 <= k && k < FK_NKINDS) ? names[k] : "?";
 }
 
